@@ -12,6 +12,8 @@ let rec int_of_pos = function
   | Coq_xO p -> 2 * int_of_pos p
   | Coq_xI p -> 2 * int_of_pos p + 1
 let int_of_n = function N0 -> 0 | Npos p -> int_of_pos p
+let z_of_int (i : int) : coq_Z = if i = 0 then Z0 else if i > 0 then Zpos (pos_of_int i) else Zneg (pos_of_int (- i))
+let int_of_z = function Z0 -> 0 | Zpos p -> int_of_pos p | Zneg p -> - (int_of_pos p)
 
 
 let p1 = 2147483647 and b1 = 257 and p2 = 2147483629 and b2 = 65599
